@@ -50,6 +50,10 @@ func init() {
 		"strings.LastIndexByte": func(e *Exec, fn *ssa.Function, a []Value) Value { return e.indexByte(e.win(a[0]), a[1].(*Term), true) },
 		"bytes.LastIndexByte":   func(e *Exec, fn *ssa.Function, a []Value) Value { return e.indexByte(e.win(a[0]), a[1].(*Term), true) },
 		"strings.TrimSuffix":    inTrimSuffix,
+		"strings.Contains":      func(e *Exec, fn *ssa.Function, a []Value) Value { return e.ctx.Not(e.ctx.Eq(e.indexOf(e.win(a[0]), e.win(a[1])), e.ctx.Int(-1))) },
+		"bytes.Contains":        func(e *Exec, fn *ssa.Function, a []Value) Value { return e.ctx.Not(e.ctx.Eq(e.indexOf(e.win(a[0]), e.win(a[1])), e.ctx.Int(-1))) },
+		"strings.Index":         func(e *Exec, fn *ssa.Function, a []Value) Value { return e.indexOf(e.win(a[0]), e.win(a[1])) },
+		"bytes.Index":           func(e *Exec, fn *ssa.Function, a []Value) Value { return e.indexOf(e.win(a[0]), e.win(a[1])) },
 		"strings.Join":          inJoin,
 		"strings.Count":         inCount,
 		"bytes.Split":           inSplit,
@@ -91,6 +95,27 @@ func init() {
 				bs[i] = e.fresh(fmt.Sprintf("%s[%d]", name, i), 8)
 			}
 			return e.mkString(bs)
+		},
+		"vChoose": func(e *Exec, fn *ssa.Function, a []Value) Value {
+			// a byte drawn from a concrete alphabet: a guarded value set over
+			// fresh selector bits (folds under comparisons with constants)
+			name, alpha := e.goString(a[0]), e.goString(a[1])
+			nbits := 0
+			for (1 << nbits) < len(alpha) {
+				nbits++
+			}
+			bits := make([]*Term, nbits)
+			for i := range bits {
+				bits[i] = e.fresh(fmt.Sprintf("%s.b%d", name, i), 0)
+			}
+			var build func(lo, level int) *Term
+			build = func(lo, level int) *Term {
+				if level < 0 {
+					return e.ctx.BV(uint64(alpha[lo%len(alpha)]), 8)
+				}
+				return e.ctx.Ite(bits[level], build(lo+(1<<level), level-1), build(lo, level-1))
+			}
+			return build(0, nbits-1)
 		},
 		"vAssume": func(e *Exec, fn *ssa.Function, a []Value) Value { e.assume(a[0].(*Term)); return nil },
 		"vAssert": func(e *Exec, fn *ssa.Function, a []Value) Value {
@@ -231,6 +256,20 @@ func (e *Exec) indexByte(s win, ch *Term, last bool) *Term {
 			hit := c.And(c.Slt(kk, s.len), c.Eq(e.winAt(s, kk), ch))
 			acc = c.Ite(hit, kk, acc)
 		}
+	}
+	return acc
+}
+
+// indexOf: first index of sep in s (both windows concretised), or -1.
+func (e *Exec) indexOf(s, sep win) *Term {
+	c := e.ctx
+	sb, pb := e.winBytes(s), e.winBytes(sep)
+	if len(pb) == 0 {
+		return c.Int(0)
+	}
+	acc := c.Int(-1)
+	for k := len(sb) - len(pb); k >= 0; k-- {
+		acc = c.Ite(e.bytesEq(sb[k:k+len(pb)], pb), c.Int(int64(k)), acc)
 	}
 	return acc
 }
